@@ -1406,9 +1406,9 @@ def r_span(repo, tier):
                         out.report(EXPR, f.dqual, norm(x)[:90], x.lineno, "the slice mask update does not cover exactly the bits of the key it records (slice %s:%s, key (%s, %s), count %s)" % (norm(t.slice.lower), norm(t.slice.upper), norm(klo), norm(khi), norm(v.right)))
     # comp.cut removes *every* part under the written range: the parts it pops are enumerated from the whole mask slice
     # self.smask[start:stop] (parts lying strictly inside the range have no bit at either bound)
-    cut = c.methods.get("cut")
-    if cut is None:
+    if c.methods.get("cut") is None:
         raise AnalysisError("R-SPAN: comp.cut vanished")
+    cut = repo.func(EXPR, "comp.cut")
     ps = cut.params()
     lo, hi = (ps[1], ps[2]) if len(ps) >= 3 else (None, None)
     full = []
